@@ -84,7 +84,7 @@ CHECKS["C12"] = dict(
     technique="Lean 4 interleaving theorem + regenerated static-storage inventory as proof obligation + interleaved/concurrent differential execution (ASan, TSan)",
     ref="§5 C12")
 
-INNOTE = "Lean kernel; axioms propext, Classical.choice, Quot.sound; detail::parser and get_well_known_virtual_key are modelled state by state with every scratch member; glibc atoi (clamp to 2^63-1, truncate to int32) and isdigit are modelled, not verified, and cross-checked on the atoi boundary values every run; function-local tables in .cpp files are tied by exhaustive sweeps, the header constants they use are regenerated; the specification side (Tpp.Ref.Input: items of the xterm/ECMA-48 input protocol, xterm modifier rule, designates) is hand-written from the protocol documents."
+INNOTE = "Lean kernel; axioms propext, Classical.choice, Quot.sound; detail::parser and get_well_known_virtual_key are modelled state by state with every scratch member; argument_to_integer (strtoll clamped to int, which replaced atoi in fix 1071cf8) and isdigit are modelled, not verified, and cross-checked on the int boundary values every run; function-local tables in .cpp files are tied by exhaustive sweeps, the header constants they use are regenerated; the specification side (Tpp.Ref.Input: items of the xterm/ECMA-48 input protocol, xterm modifier rule, designates) is hand-written from the protocol documents."
 CHECKS["C05"] = dict(
     text="Lean proves, for an idle decoder with ARBITRARY scratch fields: any concatenation of well-formed input items (characters, the five Enter forms, CSI cursor/Home/End/Tab/BackTab keys with repeat counts and modifiers in 7- and 8-bit form with meta prefix, SS3 keys, keypad CSI n;m~, other CSI sequences with parameters and private markers, X10 mouse reports) under the CR/LF adjacency condition decodes to exactly one expected token per item, in order (key, modifiers per the xterm rule, repeat count, mouse button and zero-based position, original sequence); decoding of an item does not depend on what preceded it; the key/modifier/mouse tables agree with the protocol tables for all bytes. Tied by the exhaustive (prefix state x next byte x suffix) sweep, the key-space sweep incl. atoi boundary values, mouse grids and random item streams; the oracle compares real tokens with items.map expected.",
     note=INNOTE, technique="Lean 4 proof (per-item lemmas from idle with arbitrary scratch, induction over item lists) + exhaustive transition/key-space differential tie", ref="§5 C05")
@@ -95,7 +95,7 @@ CHECKS["C07"] = dict(
     text="Lean proves: any four letters bring the input decoder from ANY state to idle (and three do not suffice - witness); two idle states with different scratch decode every stream and every delivery sequence identically (bisimulation), hence after garbage + 4 letters any suffix decodes as on a fresh terminal; every control sequence the decoder emits has at least one argument (the guard for arguments[0]); the markup decoder never yields more elements than input characters, consumes at least one character per element (termination), and never indexes the 38-entry handler table out of range. Termination of every model function is checked by Lean. 'Without undefined behaviour' on the compiled code is supported, not proved: every stream of C05/C06/C10 plus hostile streams (all strings over 11 byte classes up to length 4/6 for both decoders, random to 4096 bytes, digit runs to 10^5) runs under ASan+UBSan with no recovery; an abort is a violation with the input as replay. Partial for memory safety.",
     note=INNOTE + " Memory safety/UB freedom of the compiled C++ is outside the model (sanitised execution only).", technique="Lean 4 proof (resynchronisation, bisimulation, bounds) + sanitised hostile-input execution", ref="§5 C07")
 CHECKS["C20"] = dict(
-    text="The full statement (every abstract-key token is produced only by a control sequence that designates that key per the xterm tables - liberally ignoring extra parameters/markers - or by a line ending; a single ordinary idle byte is reported as that byte) is stated as a Prop and PROVED FALSE of the code on concrete witnesses: bytes 0x80-0x96 except 0x8F come out as cursor_up..f12 (static_cast<vk>), and a keypad parameter >= 2^31 wraps in atoi (ESC[4294967307~ -> F1). Proved instead (C20_partial): every abstract-key token has a designating sequence, is a line ending, carries a raw byte from exactly that 22-byte set, or has a parameter >= 2^31; and single ordinary bytes are reported as themselves, abstract exactly on the colliding set. Both defects need an API change (wider vk / checked parsing): 23 known findings, matched by signature so any other C20 violation is still reported. All 256 idle bytes in idle/after CR/after LF and the whole key space are judged by the oracle.",
+    text="The full statement (every abstract-key token is produced only by a control sequence that designates that key per the xterm tables - liberally ignoring extra parameters/markers - or by a line ending; a single ordinary idle byte is reported as that byte) is stated as a Prop and PROVED FALSE of the code on concrete witnesses: bytes 0x80-0x96 except 0x8F come out as cursor_up..f12 (static_cast<vk>). Proved instead (C20_partial): every abstract-key token has a designating sequence, is a line ending, or carries a raw byte from exactly that 22-byte set - for parameters of ANY size; and single ordinary bytes are reported as themselves, abstract exactly on the colliding set. The byte collision needs an API change (wider vk): 22 known findings, matched by signature so any other C20 violation is still reported. A second defect the proof attempt exposed - a keypad/modifier/repeat parameter >= 2^31 wrapped in atoi (ESC[4294967307~ -> F1) - was repaired in /repo (fix 1071cf8: clamp), the exclusion was removed from the theorem and C20_large_parameter_names_no_key states the repaired behaviour. All 256 idle bytes in idle/after CR/after LF and the whole key space are judged by the oracle.",
     note=INNOTE, technique="Lean 4 proof of the partial statement + proved negation of the full statement on concrete witnesses; exhaustive idle-byte and key-space oracle with known-findings matching", ref="§5 C20")
 
 NOT_YET = {}
